@@ -176,6 +176,24 @@ def gen_case(rng, i):
                 else:
                     ops.append(["record", k, gen_value(rng, kinds[k], breaks), e])
             ops.append(["dump"])
+        # interleave the operations of each dump (per-key order kept): record_mean calls of one key are no longer contiguous
+        out, seg = [], []
+        for op in ops:
+            if op[0] == "dump":
+                queues = {}
+                for o in seg:
+                    queues.setdefault(o[1], []).append(o)
+                keys = list(queues)
+                while keys:
+                    kk = rng.choice(keys)
+                    out.append(queues[kk].pop(0))
+                    if not queues[kk]:
+                        keys.remove(kk)
+                out.append(op)
+                seg = []
+            else:
+                seg.append(op)
+        ops = out
         if not blank_row_class(ops, formats):
             return {"kind": "breaks" if breaks else "plain", "formats": formats, "ops": ops, "id": i}
 
@@ -508,9 +526,10 @@ def compare(case, impl, mv):
                               f"read_csv columns {impl['csv_cols']} keys recorded for csv {want_cols}"))
             elif want_cols:
                 rows = impl["csv_rows"]
-                bad = []
+                bad, bad_cells = [], []
                 if len(rows) != n:
                     bad.append(f"{len(rows)} rows for {n} dumps")
+                    bad_cells.append(None)
                 else:
                     for r in range(n):
                         for c, k in enumerate(impl["csv_cols"]):
@@ -518,11 +537,14 @@ def compare(case, impl, mv):
                             want = None if (want is None or "csv" in want[1]) else want[0]
                             if not cell_matches(want, rows[r][c]):
                                 bad.append(f"dump {r} key {k}: read back {rows[r][c]!r}, recorded {want!r}")
+                                bad_cells.append((r, k))
                 if bad:
-                    # classify: only rows/values of the F5 class may be wrong
-                    sig = "csv-multiline-value-corrupted-by-header-rewrite" if f5_rows else BLANK_SIG if blank else "oracle-csv-readback"
+                    # classify: ONLY the cells of the F5 class (value with a line break written before a later new column) may be wrong
+                    only_f5 = bool(f5_rows) and all(c is not None and tuple(c) in {tuple(x) for x in f5_rows} for c in bad_cells)
+                    sig = "csv-multiline-value-corrupted-by-header-rewrite" if only_f5 else BLANK_SIG if blank else "oracle-csv-readback"
+                    f5_rows_msg = only_f5
                     msg = bad[0]
-                    if f5_rows:
+                    if f5_rows_msg:
                         msg = f"a string value with a line break is corrupted by the CSV header rewrite when a later dump adds a column: {bad[0]}"
                     elif blank:
                         msg = ("a dump without any csv-visible value (before the first column exists, or with a single column) leaves a blank line that read_csv drops / the next "
@@ -561,7 +583,11 @@ def compare(case, impl, mv):
                 if k in table and not human_value_ok(want[k], table[k]):
                     probs.append(("oracle-human-value", f"dump {r} key {k}: {fmt} shows {table[k]!r} for {want[k]!r}"))
     # ---------------- model vs impl ----------------
-    pending_ok, views, diff, mkeys, roundtrip_ok, mleft = mv[0]
+    pending_ok, views, diff, mkeys, roundtrip_ok, mleft, n_records_skip_blank = mv[0]
+    if "csv" in formats and "csv_rows" in impl and not f5_rows and mkeys and impl["dumps"] and impl["dumps"][0]["extra"]:
+        # the model's file read with blank-line skipping has as many records as pandas returns rows (+ header): also for the blank-row class (a)
+        if n_records_skip_blank != len(impl["csv_rows"]) + 1:
+            probs.append(("csv-skip-blank-row-count", f"read_csv returns {len(impl['csv_rows'])} rows, Model.Csv.parse_csv_skip_blank {n_records_skip_blank - 1}"))
     if pending_ok is not True:
         probs.append(("logger-pending-maps", "pending maps just before a dump differ between Model.Logger and the implementation (keys, order, values at 1e-9 or exclusion tuples)"))
     if mleft != impl["left"]:
@@ -595,7 +621,22 @@ def compare(case, impl, mv):
     return probs
 
 
+def mean_on_string(case):
+    """precise predicate: record_mean(k, number) while k holds a string recorded since the last dump"""
+    held = {}
+    for op in case["ops"]:
+        if op[0] == "dump":
+            held = {}
+        elif op[0] == "record":
+            held[op[1]] = isinstance(op[2], dict) and op[2].get("t") == "str"
+        elif op[0] == "record_mean" and op[2] is not None and held.get(op[1]):
+            return True
+    return False
+
+
 def nontrivial(case, impl):
+    if "raised" in impl:
+        return False
     if case["kind"] == "human":
         return any(e["raised"] for e in impl["events"]) or any(op[0] == "level" for op in case["ops"])
     extras = [d["extra"] for d in impl["dumps"]]
@@ -608,12 +649,24 @@ KNOWN = {"csv-multiline-value-corrupted-by-header-rewrite", "exclude-stdout-also
 
 
 def run_cases(chk, cases):
-    impls = [(run_human(c) if c["kind"] == "human" else run_impl(c)) for c in cases]
+    impls = []
+    for c in cases:
+        try:
+            impls.append(run_human(c) if c["kind"] == "human" else run_impl(c))
+        except Exception as e:  # noqa: BLE001 - the implementation raised on the history: reported, the check goes on
+            impls.append({"raised": f"{type(e).__name__}: {e}"})
     exprs = []
     for c, im in zip(cases, impls):
-        exprs += exprs_human(c, im) if c["kind"] == "human" else model_exprs(c, im)
+        exprs += ["true"] if "raised" in im else exprs_human(c, im) if c["kind"] == "human" else model_exprs(c, im)
     vals = common.coq_eval_many(chk.pid, HEADER, exprs, shard=120, procs=4)
-    results = [(compare_human(c, im, [v]) if c["kind"] == "human" else compare(c, im, [v])) for c, im, v in zip(cases, impls, vals)]
+    results = []
+    for c, im, v in zip(cases, impls, vals):
+        if "raised" in im:
+            # record_mean on a key that holds a string (mean_defined = false in the model) is a TypeError of the caller, not a violation
+            results.append([] if (mean_on_string(c) and im["raised"].startswith("TypeError")) else
+                           [("oracle-implementation-raises", "the implementation raises on a legal history: " + im["raised"])])
+        else:
+            results.append(compare_human(c, im, [v]) if c["kind"] == "human" else compare(c, im, [v]))
     return impls, results
 
 
@@ -633,6 +686,8 @@ def main():
     hist = {"plain": 0, "breaks": 0, "human": 0, "corpus": n_corpus, "formats": {}, "dumps": {}, "with_record_mean": 0, "with_exclusions": 0, "f5_class": 0, "f6_class": 0}
     reported = set()
     for idx, (c, im, probs) in enumerate(zip(cases, impls, results)):
+        if "raised" in im and not probs:
+            continue
         if idx >= n_corpus:
             hist[c["kind"]] += 1
         fk = ",".join(c["formats"])
